@@ -33,6 +33,56 @@ def moduli(p):
     return [n for n in p if n.startswith("E")]
 
 
+def defaults_isolated(ctx):
+    """the starting point of a fit that relies on the library defaults is the model's documented default set - no
+    matter which initial parameters were obtained and edited for earlier curves in the same process"""
+    import warnings
+    from nanite import model
+    for mk in fitlib.MODELS:
+        md = model.models_available[mk]
+        ref = {n: (v.value, v.vary, v.min, v.max) for n, v in md.module.get_parameter_defaults().items()}
+        hist = []
+        with warnings.catch_warnings():
+            warnings.simplefilter("ignore")
+            truth = fitlib.truth_params(mk, ctx.rng, cp=0.0)
+            a = fitlib.synth_curve(mk, truth, ctx.rng, n_app=150, n_ret=60, seed=1)
+            a.apply_preprocessing(["compute_tip_position"])
+            p = a.get_initial_fit_parameters(model_key=mk)
+            geo = [n for n in ("R", "alpha", "t") if n in p][0]
+            p[geo].set(value=p[geo].value * 0.5)
+            p["baseline"].set(vary=False)
+            hist += [f"p = a.get_initial_fit_parameters(model_key={mk!r})", f"p[{geo!r}].value *= 0.5; "
+                     "p['baseline'].vary = False", "a.fit_model(params_initial=p)"]
+            try:
+                a.fit_model(model_key=mk, params_initial=p)
+            except BaseException:  # noqa
+                pass
+            q1 = md.get_parameter_defaults()
+            q1[geo].set(value=q1[geo].value * 3)
+            hist.append(f"q = models_available[{mk!r}].get_parameter_defaults(); q[{geo!r}].value *= 3")
+            b_ = fitlib.synth_curve(mk, truth, ctx.rng, n_app=150, n_ret=60, seed=2)
+            b_.apply_preprocessing(["compute_tip_position"])
+            try:
+                b_.fit_model(model_key=mk)
+            except BaseException:  # noqa
+                pass
+            hist.append(f"b.fit_model(model_key={mk!r})   # relies on the defaults")
+        now = {n: (v.value, v.vary, v.min, v.max) for n, v in md.get_parameter_defaults().items()}
+        used = b_.fit_properties.get("params_initial")
+        ctx.case({"oracle": "defaults-isolated", "model": mk}, nontrivial=f"defaults:{mk}", bucket="oracle=defaults-isolated")
+        bad = []
+        if now != ref:
+            bad.append(f"get_parameter_defaults() now returns {now[geo]} for {geo} (documented default {ref[geo]})")
+        if used is not None:
+            for n in (geo, "baseline"):
+                if n == geo and used[n].value != ref[n][0]:
+                    bad.append(f"curve b was fitted with {n} = {used[n].value!r} instead of the default {ref[n][0]!r}")
+                if n == "baseline" and bool(used[n].vary) != bool(ref[n][1]):
+                    bad.append(f"curve b was fitted with baseline.vary = {used[n].vary}")
+        if bad:
+            ctx.violation(f"defaults-not-isolated:{mk}", "; ".join(bad), {"history": hist, "observed": bad})
+
+
 def run(ctx):
     ctx.trusted = TRUST_COMMON + [
         "theorems: zero residual at the generating parameters, every least-squares minimiser reproduces exact "
@@ -168,6 +218,7 @@ def run(ctx):
         if bad:
             ctx.violation("not-recovered:" + tag, "generating parameters not recovered: " + "; ".join(bad),
                           {**rep, "observed": bad})
+    defaults_isolated(ctx)
     ctx.extra["basin"] = BASIN
 
 
